@@ -173,3 +173,76 @@ Example C01_source_nonvacuous :
             MiniPy.VD [(VS "a", MiniPy.VD [(VS "x", VS "seven"); (VS "y", VS "given")]); (VS "b", MiniPy.VD [(VS "x", VS "seven")])]]).
 Proof. exact fill_nonvacuous. Qed.
 Print Assumptions C01_source_nonvacuous.
+
+(* ---------------------------------------------------------------------------------------------------------------------------------
+   The source-bridged fill step and the default model (Proofs/DefaultsPipeline.v).  Empty command line: the namespace holds no parsed
+   value, every field takes FieldWrapper.default.  A wrapper of Model/Defaults.v is abstracted to a Pipeline.wrapperw whose field
+   records carry the evaluated attributes and, as tables, the graphs of duplicate_if_needed / postprocess of Model/Defaults.v. *)
+From SPV Require Import Proofs.DefaultsPipeline.
+
+(* for the regenerated body of _fill_constructor_arguments_with_fields (and of FieldWrapper.__call__ inside it), an empty argv yields,
+   for any wrapper DataclassWrapper.__init__ creates, exactly the leaf entries of run_fields_gen — the function
+   C01_empty_defaults_partial / C01_bottom_up_rebuilds reason about *)
+Theorem C01_source_pipeline_defaults : forall mode cls key path cn fs wd defs parent opt children,
+  fill_side fs = true ->
+  MiniPy.run (fill_env mode cls [] [abs_wrapper_gen (wrapper_of_gen key path cn fs wd defs parent opt children)] [(VS key, MiniPy.VD [])])
+             fill_src
+  = Ok (VT [VR cls []; MiniPy.VD [(VS key, MiniPy.VD (enc_attrs (leaf_part fs (run_fields_gen fs wd defs))))]]).
+Proof. exact source_pipeline_defaults. Qed.
+Print Assumptions C01_source_pipeline_defaults.
+
+(* ... which, at a registered destination, are the leaf attributes of the instance C01 demands *)
+Theorem C01_source_pipeline_meets_spec : forall mode cls d c i children,
+  wf_entry (d, c, i) = true -> forallb (shape3_free_fld guard_gen (Defaults.is_some i) i) (snd c) = true -> fill_side (snd c) = true ->
+  MiniPy.run (fill_env mode cls [] [abs_wrapper_gen (wrapper_of_gen d [d] (fst c) (snd c) i (root_defaults i) None false children)]
+                       [(VS d, MiniPy.VD [])]) fill_src
+  = Ok (VT [VR cls []; MiniPy.VD [(VS d, MiniPy.VD (enc_attrs (leaf_part (snd c)
+                 (attrs_of (match i with Some D => D | None => construct c end)))))]]).
+Proof. exact source_pipeline_meets_spec. Qed.
+Print Assumptions C01_source_pipeline_meets_spec.
+
+(* ALWAYS_MERGE: the same for the whole flattened wrapper store (wrappers with several destinations), against fill_wrapper *)
+Theorem C01_source_pipeline_store : forall mode cls ws c',
+  forallb names_ok ws = true ->
+  String.eqb mode Pipeline.MERGE || Nat.eqb (List.length ws) (List.length (init_ca ws)) = true ->
+  fill_all_gen ws (init_ca ws) = Ok c' ->
+  MiniPy.run (fill_env mode cls [] (map abs_wrapper_gen ws) (enc_ca (init_ca ws))) fill_src
+  = Ok (VT [VR cls []; MiniPy.VD (enc_ca c')]).
+Proof. exact source_pipeline_store. Qed.
+Print Assumptions C01_source_pipeline_store.
+
+Example C01_source_pipeline_nonvacuous :
+  wf_entry ("d", ("T", nv_fs), Some nv_inst) = true /\ fill_side nv_fs = true
+  /\ MiniPy.run (fill_env "ConflictResolution.AUTO" "Namespace" []
+                   [abs_wrapper_gen (wrapper_of_gen "d" ["d"] "T" nv_fs (Some nv_inst) [nv_inst] None false ["d.n"])]
+                   [(VS "d", MiniPy.VD [])]) fill_src
+     = Ok (VT [VR "Namespace" [];
+               MiniPy.VD [(VS "d", MiniPy.VD [(VS "y", enc_value (VInt 3)); (VS "xs", MiniPy.VL [VS "a"]);
+                                              (VS "t", enc_value (VTup [VInt 1]))])]])
+  /\ fill_all_gen [nv_merged] (init_ca [nv_merged])
+     = Ok [("d0", [("y", Defaults.VL (VInt 9))]); ("d1", [("y", Defaults.VL (VInt 7))])]
+  /\ MiniPy.run (fill_env "ConflictResolution.ALWAYS_MERGE" "Namespace" [] (map abs_wrapper_gen [nv_merged]) (enc_ca (init_ca [nv_merged]))) fill_src
+     = Ok (VT [VR "Namespace" [];
+               MiniPy.VD [(VS "d0", MiniPy.VD [(VS "y", enc_value (VInt 9))]); (VS "d1", MiniPy.VD [(VS "y", enc_value (VInt 7))])]]).
+Proof. exact pipeline_nonvacuous. Qed.
+Print Assumptions C01_source_pipeline_nonvacuous.
+
+(* The second half of the plumbing, under the same kind of theorem: `instantiate_src` and `create_src` are the asts of
+   ArgumentParser._instantiate_dataclasses and of _create_dataclass_instance (the procedure the former calls), dumped by
+   harness/translate/PipelineSrc.py on every run.  Run by the MiniPy interpreter on ANY mode, parser defaults, namespace, list of
+   wrappers (nesting levels, destinations, defaults, Optional flag, default, parent, fields with their names and defaults), dict
+   of constructor arguments and ANY table for the dataclass constructors (uninterpreted, may raise), they compute exactly the
+   functional model Model/Pipeline.v instantiate_fn / create_fn: deepest wrappers first (stable), the type tag dropped, SUPPRESS
+   wrappers kept as dicts or suppressed, the Optional-member guard ("no explicit default, every default None / SUPPRESS, every
+   argument equal to the field's default" -> None), the value stored in the parent's constructor arguments or on the namespace
+   (RuntimeError on a collision outside the parser defaults), `assert not constructor_arguments`.  No hypothesis. *)
+From SPV Require Import Proofs.MiniPyInstantiate.
+Theorem C01_source_instantiate_is_model : forall mode pd cls ns ws ca0,
+  MiniPy.run (instantiate_env mode pd cls ns ws ca0) instantiate_src
+  = match instantiate_fn (String.eqb mode Pipeline.MERGE) pd ws ns ca0 with Ok ns' => Ok (MiniPy.VR cls ns') | Err z => Err z end.
+Proof. exact instantiate_is_model. Qed.
+Print Assumptions C01_source_instantiate_is_model.
+
+Theorem C01_source_create_is_model : forall w args, MiniPy.run (create_env w args) create_src = create_fn w args.
+Proof. exact create_is_model. Qed.
+Print Assumptions C01_source_create_is_model.
